@@ -72,6 +72,19 @@ InitFor(pl) ==
   /\ wd = [p \in 1..Len(pl.pools) |-> 0]
 Init == \E pl \in Plans : InitFor(pl)
 
+(* ---- pool ids ---------------------------------------------------------------------------------- *)
+\* `id:` of a pool section is a free-form string and nothing makes it unique: a copy-pasted section, or an explicit
+\* id equal to the default `pool_<index>` generated for a pool without one.  Plan field dupid: "none" (distinct
+\* ids), "same" (every pool carries the same explicit id), "default" (pool 1 is called `pool_1`, which is also what
+\* pool 2, written without an id, gets).  Run's loop COUNTS the results it has received (one per pool goroutine);
+\* the ids take no part in it.  PendingById (definition, overridden only by the negative control
+\* cfg/Engine_neg_pendingbyid.cfg): the wrong variant that keeps a SET of pending ids and stops when it is empty.
+PendingById == FALSE
+PId(p) == IF plan.dupid = "none" THEN p ELSE 0
+AllAwaited(n, rs) == IF PendingById
+                     THEN {PId(p) : p \in Pools} \ {PId(rs[j].p) : j \in 1..Len(rs)} = {}
+                     ELSE n = NP
+
 (* ---- Engine.Run, the caller, Engine.Wait (as in PoolRun.tla) -------------------------------- *)
 EngRecv ==
   /\ engRet.k = "none" /\ Len(engCh) > 0
@@ -87,7 +100,8 @@ EngRecv ==
                     /\ lastErr' = ERet("err", r.p, r.ret.c)
                     /\ engRet' = IF engI + 1 = NP THEN ERet("err", r.p, r.ret.c) ELSE engRet
           ELSE /\ engI' = engI + 1
-               /\ engRet' = IF engI + 1 = NP THEN (IF lastErr.k = "none" THEN ERet("nil", 0, "") ELSE lastErr) ELSE engRet
+               /\ engRet' = IF AllAwaited(engI + 1, Append(recvd, r))
+                            THEN (IF lastErr.k = "none" THEN ERet("nil", 0, "") ELSE lastErr) ELSE engRet
                /\ UNCHANGED lastErr
   /\ cancelAtRet' = IF engRet'.k # "none" THEN userCancel ELSE cancelAtRet
   /\ UNCHANGED <<plan, cancelReq, userCancel, engDefer, waitRet, poolVars>>
